@@ -8,6 +8,7 @@ an arbitrary valid backend state of two unrelated hashers and a using()-derived 
 sequences of any length).  (d) finite: every advertised backend of every shipped hasher loads or is reported missing, the
 pure-Python backends agree with crypt()/hashlib/the bcrypt package on this host on a battery incl. non-UTF-8 passwords.
 """
+import os
 import sys
 import z3
 from vlib import sym, runner, hashenv
@@ -693,6 +694,78 @@ def replay_backends():
     return False
 
 
+FIRST_USE = r'''
+import sys, warnings, os
+warnings.simplefilter("ignore")
+sys.path.insert(0, sys.argv[1])
+name, backend = sys.argv[2], sys.argv[3]
+from passlib import registry
+H = registry.get_crypt_handler(name)
+b = getattr(H, "wrapped", H)
+b = getattr(b, "wrapped", b) if not hasattr(b, "set_backend") else b
+kw = {}
+if "rounds" in H.setting_kwds:
+    bb = getattr(H, "wrapped", H)
+    kw["rounds"] = {"bcrypt": 4, "bcrypt_sha256": 4, "bsdi_crypt": 5, "scrypt": 1, "sha1_crypt": 3}.get(bb.name, max(getattr(bb, "min_rounds", 1), 1))
+ck = dict((k, "user") for k in getattr(H, "context_kwds", ()) if k in ("user", "realm"))
+if backend != "-":
+    import passlib.hash as PH
+    tgt = b if hasattr(b, "set_backend") else getattr(PH, "bcrypt")
+    tgt.set_backend(backend)
+Hc = H.using(**kw) if kw else H
+h1 = Hc.hash("first call", **ck)            # the very first computation in this process
+ok1 = H.verify("first call", h1, **ck)
+bad1 = H.verify("Girst call", h1, **ck)
+h2 = Hc.hash("first call", **ck)
+ok2 = H.verify("first call", h2, **ck) and H.verify("first call", h1, **ck)
+print("RESULT", ok1, bad1, ok2, type(h1).__name__)
+'''
+
+
+def replay_first_use(name, backend="-"):
+    import subprocess
+    env = dict(os.environ, PASSLIB_BUILTIN_BCRYPT="enabled", PYTHONHASHSEED="0")
+    p = subprocess.run([sys.executable, "-W", "ignore", "-c", FIRST_USE, runner.REPO, name, backend], capture_output=True, text=True,
+                       timeout=300, env=env)
+    line = [l for l in p.stdout.splitlines() if l.startswith("RESULT")]
+    if not line:
+        if "MissingBackendError" in p.stderr:
+            return False
+        return "%s (backend %s): first use in a fresh process fails: %s" % (name, backend, p.stderr.strip().splitlines()[-1][:200] if p.stderr.strip() else "no output")
+    ok1, bad1, ok2, ty = line[0].split()[1:]
+    if name in ("unix_disabled", "django_disabled"):
+        return (ok1 == "True" or ok2 == "True") and "%s verifies a password" % name
+    if ok1 != "True":
+        return "%s (backend %s): the first hash made in a process does not verify its password" % (name, backend)
+    if bad1 != "False" and name not in ("plaintext",):
+        return "%s (backend %s): the first hash made in a process verifies a wrong password" % (name, backend)
+    if ok2 != "True":
+        return "%s (backend %s): later hashes / re-verification of the first hash fail" % (name, backend)
+    return False
+
+
+def ob_first_use(names):
+    from passlib import registry
+    n = 0
+    for name in names:
+        try:
+            H = registry.get_crypt_handler(name)
+        except Exception:
+            continue
+        b = getattr(H, "wrapped", H)
+        backends = ["-"] + [x for x in (getattr(b, "backends", None) or ()) if x != "argon2_cffi" and b.name != "argon2"]
+        if b.name == "argon2":
+            continue
+        for be in backends:
+            n += 1
+            r = replay_first_use(name, be)
+            if r:
+                return violation("first use: %s" % r, "first-use:%s" % name, {"module": "harness.c03", "func": "replay_first_use",
+                                                                              "args": {"name": name, "backend": be}})
+    return ok("%d hasher/backend pairs: the first hash computed in a fresh process verifies its password, rejects another, and agrees "
+              "with later calls" % n, paths=n, verdict="finite-enumeration", nontrivial=False)
+
+
 def ob_backends():
     r = replay_backends()
     if r:
@@ -713,6 +786,10 @@ def run(tier, seed, t0, only=None):
     obs.append(Ob("switch", ob_switch, timeout=1800))
     obs.append(Ob("switch-mixin", ob_switch_mixin, timeout=600))
     obs.append(Ob("host-backends", ob_backends, timeout=1800))
+    from harness import c08 as _c08
+    allnames = _c08.handler_names()
+    for i in range(0, len(allnames), 8):
+        obs.append(Ob("first-use#%d" % (i // 8), ob_first_use, {"names": allnames[i:i + 8]}, timeout=1800))
     if only:
         obs = [o for o in obs if only in o.name]
     results = runner.run_obligations(obs)
